@@ -188,6 +188,8 @@ func runC09(c *an.Ctx) {
 
 	// ---------------- Q2 ----------------
 	ruleQ2(c, quote)
+	ruleQ5(c)
+	ruleQ6(c)
 }
 
 func fieldOwner(p *an.Prog, f *types.Var) string {
